@@ -2,6 +2,7 @@ package persist
 
 import (
 	"context"
+	"errors"
 	"fmt"
 
 	"github.com/fxamacker/cbor/v2"
@@ -10,6 +11,10 @@ import (
 	"git.defalsify.org/vise.git/db"
 	"git.defalsify.org/vise.git/state"
 )
+
+// ErrDecode is wrapped by the error Load returns for a record that was read but cannot be decoded
+// (as opposed to a record the store could not deliver).
+var ErrDecode = errors.New("stored session cannot be decoded")
 
 // Persister abstracts storage and retrieval of state and cache.
 type Persister struct {
@@ -132,7 +137,7 @@ func (p *Persister) Load(key string) error {
 	}
 	err = p.Deserialize(b)
 	if err != nil {
-		return err
+		return fmt.Errorf("%w: %w", ErrDecode, err)
 	}
 	logg.Infof("loaded state and cache", "self", p, "key", key, "state", p.State)
 	logg.Tracef("loaded bytecode", "code", p.State.Code)
